@@ -262,7 +262,10 @@ impl<'ast, 'arena> ProgramFacts<'ast, 'arena> {
         }
         self.locals.push(LocalInfo { name, owner, declaring_scope, decl_span, decl_stmt, kind });
         self.scope_locals[declaring_scope.0 as usize].push(id);
-        function.locals_len += 1;
+        // Local ids are handed out in traversal order, so the locals of a nested
+        // function can sit between two locals of this one: the range has to span
+        // from the first to the last own local, not just count them.
+        function.locals_len = id.0 - function.locals_start + 1;
         id
     }
 
